@@ -105,11 +105,12 @@ def pointToTriangleFn : P String := do
 def contactPositionFn : P String := do
   let P : Portal α ← pPortal
   let d : V3 α ← pV3
+  let s := sum4 (baryMain P.p0.v P.p1.v P.p2.v P.p3.v)
   match contactPosition P d, contactWeights P.p0.v P.p1.v P.p2.v P.p3.v d with
   | .ok r, .ok w =>
-    pure s!"ok {r.2} {rS (sum4 (baryMain P.p0.v P.p1.v P.p2.v P.p3.v))} {rV3 r.1} {rScalars [w.1.1, w.1.2.1, w.1.2.2.1, w.1.2.2.2]}"
-  | .error e, _ => pure (rErrS e)
-  | _, .error e => pure (rErrS e)
+    pure s!"ok {r.2} {rS s} {rV3 r.1} {rScalars [w.1.1, w.1.2.1, w.1.2.2.1, w.1.2.2.2]}"
+  | .error e, _ => pure s!"{rErrS e} {rS s}"
+  | _, .error e => pure s!"{rErrS e} {rS s}"
 
 def penetrationInfoFn : P String := do
   let P : Portal α ← pPortal
